@@ -148,16 +148,14 @@ func (s *httpSink) handle(w http.ResponseWriter, req *http.Request) {
 
 // ---- TCP (GELF) ----
 
-// tcpSink records, per connection, everything written to it. A connection's
-// bytes are cut into captures at quiescence by the driver (takeStream).
+// tcpSink records, per connection, everything written to it (each plugin
+// worker owns one connection; bytes of different connections are never mixed).
 type tcpSink struct {
-	mu     sync.Mutex
-	ln     net.Listener
-	addr   string
-	buf    []byte
-	conns  int
-	closed bool
-	note   chan struct{}
+	mu   sync.Mutex
+	ln   net.Listener
+	addr string
+	bufs [][]byte
+	note chan struct{}
 }
 
 func newTCPSink(addr string) (*tcpSink, error) {
@@ -180,7 +178,8 @@ func (s *tcpSink) serve() {
 			return
 		}
 		s.mu.Lock()
-		s.conns++
+		idx := len(s.bufs)
+		s.bufs = append(s.bufs, nil)
 		s.mu.Unlock()
 		go func() {
 			defer c.Close()
@@ -189,7 +188,7 @@ func (s *tcpSink) serve() {
 				n, err := c.Read(tmp)
 				if n > 0 {
 					s.mu.Lock()
-					s.buf = append(s.buf, tmp[:n]...)
+					s.bufs[idx] = append(s.bufs[idx], tmp[:n]...)
 					s.mu.Unlock()
 					select {
 					case s.note <- struct{}{}:
@@ -204,13 +203,28 @@ func (s *tcpSink) serve() {
 	}
 }
 
-func (s *tcpSink) size() int { s.mu.Lock(); defer s.mu.Unlock(); return len(s.buf) }
-
-func (s *tcpSink) takeStream() []byte {
+// stats returns the number of bytes and of NUL bytes received and not yet taken.
+func (s *tcpSink) stats() (n, nul int) {
 	s.mu.Lock()
 	defer s.mu.Unlock()
-	out := s.buf
-	s.buf = nil
+	for _, b := range s.bufs {
+		n += len(b)
+		nul += bytes.Count(b, []byte{0})
+	}
+	return
+}
+
+// takeStreams returns what each connection received since the last call.
+func (s *tcpSink) takeStreams() [][]byte {
+	s.mu.Lock()
+	defer s.mu.Unlock()
+	var out [][]byte
+	for i, b := range s.bufs {
+		if len(b) > 0 {
+			out = append(out, b)
+			s.bufs[i] = nil
+		}
+	}
 	return out
 }
 
